@@ -21,6 +21,7 @@ CONSTANTS
   Prefix <- NoPrefix
   MaxHavoc = 0
   KeepRec = FALSE
+  NestedTrigs = {}
 INVARIANT NoBad
 PROPERTY EventuallyQuiet
 CHECK_DEADLOCK FALSE
